@@ -278,7 +278,12 @@ def run(ctx):
     got_stable2 = flip_demo([U, PK], [U, PK])
     ev.cov["flip_witness"] = {"flip(PK<U then U<PK)": got_flip, "stable PK<U": got_stable1, "stable U<PK": got_stable2}
     if got_flip != "SPA:Unhandled packet":
-        raise env.MachineryError(f"TLC's order-flip schedule was not reproduced on the real queue (popped by {got_flip})")
+        # the code does not follow the model's behaviour here.  Whether that is a changed library or broken machinery is
+        # decided by the rest of the check: a library that breaks the property is reported with its violations; if
+        # nothing else is wrong, the deviation is the machinery's to explain
+        witness_failed = f"TLC's order-flip schedule was not reproduced on the real queue (popped by {got_flip})"
+    else:
+        witness_failed = None
     for name, got in (("PK<U", got_stable1), ("U<PK", got_stable2)):
         if got != "SPA:Packet handler":
             ctx.violation({"clause": "framed-packet-not-taken-by-packet-consumer-under-stable-order", "order": name},
@@ -325,6 +330,8 @@ def run(ctx):
             cl = "misaddressed-traffic-changed-state" if e.get("k") == "inert" else clause_for(e)
             ctx.violation({"clause": cl, "event": e.get("k"), "cls": e.get("cls")},
                           {"rank": lg["rank"], "matched": k, "of": len(lg["ev"]), "event": e, "before": lg["ev"][max(0, k - 14):k]})
+    if witness_failed and not ctx.new:
+        raise env.MachineryError(witness_failed)
     ev.cov["evaluations"] = sum(len(l["ev"]) for l in logs)
     ev.cov["pops_observed"] = sum(1 for l in logs for e in l["ev"] if e["k"] == "pop")
     ev.cov["pops_by_unhandled"] = sum(1 for l in logs for e in l["ev"] if e["k"] == "pop" and e["cls"] == "U")
